@@ -54,6 +54,13 @@ pub mod verif_hooks {
         static FUEL: Cell<Option<u64>> = const { Cell::new(None) };
         static PROBES: Cell<u64> = const { Cell::new(0) };
         static REPAIR_SWAP: Cell<bool> = const { Cell::new(false) };
+        static ON_EXPIRY: Cell<Option<fn()>> = const { Cell::new(None) };
+    }
+
+    /// Registers a callback invoked by the first probe that answers "exceeded"
+    /// after each [`install_clock`].
+    pub fn set_expiry_callback(f: Option<fn()>) {
+        ON_EXPIRY.with(|c| c.set(f));
     }
 
     /// Installs the virtual clock: the next `fuel` probes answer "not exceeded",
@@ -79,6 +86,9 @@ pub mod verif_hooks {
             Some(fuel) => {
                 PROBES.with(|p| p.set(p.get() + 1));
                 if fuel == 0 {
+                    if let Some(cb) = ON_EXPIRY.with(|c| c.take()) {
+                        cb();
+                    }
                     Some(true)
                 } else {
                     f.set(Some(fuel - 1));
